@@ -68,7 +68,8 @@ MUTS={
            n1))""","""                (n1 (->rx (cons 'seq (cdr sre)) flags n2)))
            (state-next2-set! n2 (or (and n1 (not (state-chars n1)) (not (state-match n1)) (state-next1 n1)) n1))
            n1))"""),
- # the accepted unspecified corner (C20-b3): set algebra under w/nocase folds the RESULT instead of the operands.  Expected rc 0:
+ # the accepted unspecified corner (C20-b3): difference / intersection under w/nocase fold the RESULT instead of the operands (the same for
+ # complement would fold a 1.1 M character set per regexp and never finish).  Expected rc 0:
  # the check must not compare exactly the cases on which the two readings differ (and only those).
  'U1-set-algebra-under-nocase-folds-result': ("""            ((& and) (apply char-set-intersection (map ->cs (cdr sre))))
             ((|\\|| or) (apply char-set-union (map ->cs (cdr sre))))
@@ -76,7 +77,7 @@ MUTS={
             ((- difference) (char-set-difference (->cs (cadr sre))
                                                  (->cs `(or ,@(cddr sre)))))""","""            ((& and) (maybe-ci (apply char-set-intersection (map (lambda (x) (sre->char-set x (flag-clear flags ~ci?))) (cdr sre)))))
             ((|\\|| or) (apply char-set-union (map ->cs (cdr sre))))
-            ((~ complement) (maybe-ci (char-set-complement (sre->char-set `(or ,@(cdr sre)) (flag-clear flags ~ci?)))))
+            ((~ complement) (char-set-complement (->cs `(or ,@(cdr sre)))))
             ((- difference) (maybe-ci (char-set-difference (sre->char-set (cadr sre) (flag-clear flags ~ci?))
                                                  (sre->char-set `(or ,@(cddr sre)) (flag-clear flags ~ci?)))))"""),
 }
